@@ -1,0 +1,14 @@
+//go:build verif
+
+package hackpadfs
+
+// Contracts for govc, the contract verifier under /verif (see /verif/DESIGN.md).
+// This file contains comments only; it adds no code under any build tag.
+
+// ---- lemma library about io/fs.ValidPath (uninterpreted in the proofs) ----
+// Every lemma is assumed where a contract says `use`, and audited against the real
+// io/fs.ValidPath / path functions by `govc audit` on all short strings.
+
+//@ lemma vpSplit(m string, r string) := iff(VP(m + "/" + r), VP(m) && m != "." && VP(r) && r != ".")
+//@ lemma vpBasic(p string) := implies(VP(p), p != "" && !hasPrefix(p, "/") && !hasSuffix(p, "/") && !contains(p, "//"))
+//@ lemma vpDot(p string) := implies(VP(p) && hasPrefix(p, "."), p == "." || !hasPrefix(p, "./"))
